@@ -241,6 +241,100 @@ def returns_of(body):
     return [blk["i"] for blk in body.blocks if not blk["cleanup"] and blk["term"]["t"]["k"] == "return"]
 
 
+def bound_sources(A, body, local, depth=0, seen=None):
+    """leaf sources of an integer value (flow-insensitive, through arithmetic and crate-local helper functions):
+    ('const', c) | ('len', self-field index or None) | ('count',) | ('param', i) | ('call', name) | ('place', text)"""
+    seen = seen if seen is not None else set()
+    out = set()
+    key_ = (body.name, local)
+    if key_ in seen or depth > 3:
+        return out
+    seen.add(key_)
+    if 1 <= local <= body.arg_count:
+        out.add(("param", local))
+    for blk in body.blocks:
+        if blk["cleanup"]:
+            continue
+        for st in blk["stmts"]:
+            if st["k"] == "assign" and not st["p"]["p"] and st["p"]["l"] == local:
+                r = st["r"]
+                if r["k"] in ("ref", "rawptr", "discr", "len"):
+                    out.add(("place", M.fmt_place(r["p"])))
+                    continue
+                for o in operands_of(r):
+                    pl = o.get("copy") or o.get("move")
+                    if pl is not None:
+                        if pl["p"] and not (all(e["k"] == "field" for e in pl["p"]) and pl["l"] > body.arg_count):
+                            out.add(("place", M.fmt_place(pl)))
+                        else:
+                            # a field of a local tuple (the value half of a checked arithmetic result): follow the local
+                            out |= bound_sources(A, body, pl["l"], depth, seen)
+                    elif "const" in o and "fn" not in o:
+                        out.add(("const", o["const"]))
+        t = blk["term"]["t"]
+        if t["k"] == "call" and not t["dest"]["p"] and t["dest"]["l"] == local:
+            c = M.callee_of(t)
+            gen = c[0] if c else "<indirect>"
+            nm = (c[1] or c[0]) if c else "<indirect>"
+            if gen.endswith("::len"):
+                # receiver: a reference to a field of self?
+                fld = None
+                a0 = t["args"][0]
+                pl = a0.get("move") or a0.get("copy")
+                hops = 0
+                while pl is not None and hops < 6:
+                    hops += 1
+                    src = None
+                    for blk2 in body.blocks:
+                        for st2 in blk2["stmts"]:
+                            if st2["k"] == "assign" and not st2["p"]["p"] and st2["p"]["l"] == pl["l"]:
+                                r2 = st2["r"]
+                                if r2["k"] in ("ref", "rawptr"):
+                                    src = ("place", r2["p"])
+                                elif r2["k"] == "use":
+                                    q = r2["o"].get("move") or r2["o"].get("copy")
+                                    if q is not None:
+                                        src = ("place", q)
+                        t2 = blk2["term"]["t"]
+                        if t2["k"] == "call" and not t2["dest"]["p"] and t2["dest"]["l"] == pl["l"] and t2["args"]:
+                            # deref / as_slice wrappers: follow the first argument
+                            q = t2["args"][0].get("move") or t2["args"][0].get("copy")
+                            if q is not None:
+                                src = ("place", q)
+                    if src is None:
+                        break
+                    q = src[1]
+                    fields = [e for e in q["p"] if e["k"] == "field"]
+                    if q["l"] == 1 and fields:
+                        fld = fields[0]["i"]
+                        break
+                    pl = {"l": q["l"], "p": []}
+                out.add(("len", fld))
+            elif "node_count" in gen or "edge_count" in gen:
+                out.add(("count",))
+            elif any(gen.endswith(x) for x in ("::saturating_add", "::saturating_mul", "::checked_add", "::checked_mul", "::wrapping_add",
+                                               "::wrapping_mul", "::max", "::min", "::unwrap_or", "::unwrap", "From<T>>::from", "::into",
+                                               "TryFrom<T>>::try_from", "::try_into")):
+                for a_ in t["args"]:
+                    pl = a_.get("move") or a_.get("copy")
+                    if pl is not None and not pl["p"]:
+                        out |= bound_sources(A, body, pl["l"], depth, seen)
+                    elif "const" in a_ and "fn" not in a_:
+                        out.add(("const", a_["const"]))
+            else:
+                cb = A.facts.body(nm)
+                if cb is not None and cb.kind in ("Fn", "AssocFn") and depth < 3:
+                    sub = set()
+                    for rb in cb.blocks:
+                        pass
+                    sub = bound_sources(A, cb, 0, depth + 1, seen)
+                    # parameters of the helper: `self` is fine, anything else is followed no further
+                    out |= set(x for x in sub if x[0] != "param") | set(("call", short(nm)) for x in sub if x[0] == "param" and x[1] != 1)
+                else:
+                    out.add(("call", nm))
+    return out
+
+
 def receiver_local(body, t):
     """the local collection a method is called on: chases `_t = &mut X` / `_t = &X` / copies in the calling block and before"""
     if not t["args"]:
@@ -373,6 +467,7 @@ def check_C19(A, R, tier):
                 continue
             n_cmp += 1
             sides = []
+            shrinking = []
             for o in (cmpst["r"]["a"], cmpst["r"]["b"]):
                 pl = o.get("copy") or o.get("move")
                 if pl is None:
@@ -380,6 +475,15 @@ def check_C19(A, R, tier):
                     continue
                 sl = deep_slice(A, b, pl["l"], cidx)
                 sized = any(c.endswith("::len") or "node_count" in c or "edge_count" in c for c in sl["calls"])
+                if sized:
+                    # ... the bound must scale with the number of jobs: lengths of the jobs vector / the id map (what add_node fills)
+                    # or the graph's node count, combined with constants only - not the length of a working list that shrinks
+                    # while the evaluation proceeds, nor a value chosen by a closure or an unknown call
+                    bs = bound_sources(A, b, pl["l"])
+                    bad_src = [x for x in bs if (x[0] == "len" and x[1] not in (A.L.jobs_field, A.L.idmap_field)) or x[0] == "call"]
+                    if bad_src:
+                        sized = False
+                        shrinking.append(sorted(str(x) for x in bad_src))
                 if sized:
                     kind = "sized"
                 elif not sl["calls"] and not sl["places"] and not sl["unresolved_params"]:
@@ -390,6 +494,9 @@ def check_C19(A, R, tier):
             ks = sorted(x["kind"] for x in sides)
             okc = True
             why = ""
+            if shrinking and "sized" not in ks:
+                okc, why = False, ("the bound derives from %s, not only from the number of jobs: a working list that gets shorter while the "
+                                   "evaluation proceeds (or a value picked elsewhere) does not scale with the graph" % shrinking[0])
             if ks == ["const", "const"]:
                 okc, why = False, "both sides derive from constants only (%s): a fixed limit decides an error exit" % sorted(
                     c for x in sides for c in x["consts"] if c)
@@ -448,7 +555,13 @@ def check_C19(A, R, tier):
             if early:
                 continue
             n_walk += 1
-            R.ob("R19.4", "%s | worklist walk over graph neighbours (loop bb%d) | keeps a set of visited jobs" % (short(n), h), bool(marks),
+            # the visited-set test must guard what is put into the worklist: it dominates every put inside the loop
+            guarded = bool(marks)
+            for l_ in work:
+                for pb in puts[l_]:
+                    if not any(b.dominates(mb["i"], pb["i"]) for mb in marks):
+                        guarded = False
+            R.ob("R19.4", "%s | worklist walk over graph neighbours (loop bb%d) | keeps a set of visited jobs" % (short(n), h), guarded,
                  detail="every path to a job is walked separately: in a layered graph (each job depending on several jobs of the previous "
                         "layer) the walk takes time exponential in the number of layers - a few dozen jobs are enough to hang the evaluation",
                  site=takes[work[0]][0]["term"]["span"]["s"].split(": ")[0])
@@ -1445,6 +1558,10 @@ def check_C10(A, R, tier):
             R.ob("R10.2", "abort handler | %s | the aborted job is taken out of the ready set" % A.sname(s), ok,
                  detail="an offered job is aborted but stays in the set reported by query_ready_to_run()", site=A.site(w))
     R.floor("R10.2", "offered states handled by the abort handler", n, 3)
+    if C.get("RunningSetField") is not None:
+        # 'nothing running' is read off a maintained set: it must follow the Running class on every path (also those that fail a job)
+        from rules_protocol import pairing
+        pairing(A, R, "R10.2r", C["Running"], ("self", C["RunningSetField"]), "running")
     # R10.3: the evaluation is marked finished so that the history can be obtained --------------------
     isf = A.evaluator_fn("is_finished")
     ok_call, _ = must_pass_call(A, ab, lambda nm: nm == isf.name, lambda nm: "from_residual" in nm)
@@ -1511,7 +1628,11 @@ def check_C05(A, R, tier):
     pairing(A, R, "R5.2", C["Ready"], ("self", ready_f), "ready")
     R.ob("R5.2", "Ready, Running and Finished are pairwise disjoint",
          not (C["Ready"] & C["Finished"]) and not (C["Running"] & C["Finished"]) and not (C["Ready"] & C["Running"]))
-    R.ob("R5.2", "query_jobs_running is a scan of the job states over exactly the Running class", C["RunningQ"] == C["Running"])
+    if C["RunningQ"] is not None:
+        R.ob("R5.2", "query_jobs_running is a scan of the job states over exactly the Running class", C["RunningQ"] == C["Running"])
+    else:
+        # the report is a maintained set: it must be paired with the Running class like the ready set with the offered class
+        pairing(A, R, "R5.2r", C["Running"], ("self", C["RunningSetField"]), "running")
     # is_finished only reports true when every job is finished (checked with one unfinished class at a time)
     isf = A.evaluator_fn("is_finished")
     ss = A.uni.fin[A.L.startstatus]
